@@ -2121,7 +2121,8 @@ class TestByTestResult(TestResult):
         )
 
     def _err_to_details(self, test, err, details):
-        if details:
+        if details is not None:
+            # (An empty details dict is still details, not a missing err.)
             return details
         return {"traceback": TracebackContent(err, test, capture_locals=self.tb_locals)}
 
